@@ -68,3 +68,13 @@ chk("C07", "exploration", "A",
     "DESIGN.md §2 C07",
     "~2.4k worlds: every MISCSELECT bit on the report, identity and mask side with a mixed mask; ATTRIBUTES bits inside/outside the mask at every byte; mask/value lengths 0/15/16/17; every MRSIGNER byte; ISVPRODID variants incl. byte-swapped; all level lists of length <=3 over isvsvn {below, equal, above} x statuses; hex case / odd length / non-hex; pairs of representative deviations.",
     CRYPTO)
+chk("C11", "exploration", "A",
+    "deviation-bounded exhaustive DFS (Engine A) over the honest world generator's dimensions, every world verified at all three checking levels; oracle: must accept (with a driver self-check that the world really is honest)",
+    "DESIGN.md §2 C11",
+    "All honest worlds with <=2 (quick) / <=3 (thorough) non-default dimensions out of 14 (field contents, auth-data length 0..65535, extra bytes, NUL, SVN vectors, PCESVN, FMSPC bytes and hex case, position of the matching UpToDate level, TEE_TCB_SVN[1] with module identity, QE masks, CRL contents, time-window edges, extra roots in the pool) x {L0, L1, L2}; plus Intel's two genuine sample quotes under the embedded root. This is the completeness counterpart that keeps every 'reject more' mutant from hiding behind the one-directional soundness checks.",
+    CRYPTO + " Processor-CA chains and upper-case PCE-ID hex are excluded (not settled by the statement). The recorded sample collateral does not match the sample quote (the repository's own tests say so), so the Intel samples are checked at L0.")
+chk("C20", "model_checking", "A+B",
+    "stateless model checking of the real trust.RetryHTTPSGetter on a virtual clock: the time/context seam is generated from the current sources at check time (go build -overlay), every failure sequence and every order of simultaneously due timer/deadline events is enumerated; oracle on returned objects, attempt count, every wait and the give-up time",
+    "DESIGN.md §2 C20",
+    "31 (quick) / 40 (thorough) timeout x max-delay grid points incl. the default configuration x attempt latency {0,1s} x 'fail forever' and every 'k failures then success' the timeout allows (up to 150) x all tie decisions (<=3 deviations): success returns the first successful attempt's header and body unmodified with exactly k+1 calls; every wait is > 0 and <= MaxRetryDelay; no retry without a wait; failure is reported no later than Timeout + MaxRetryDelay + one latency and never earlier than the timeout when a later attempt would succeed; a wait nothing can wake is a hang.",
+    "Real time is replaced by a virtual clock (harness/shim). Unsupported constructs met by the rewriter make the run inconclusive (HARNESS-ERROR), never a violation. MaxRetryDelay = 0 is judged for termination-independent clauses only.")
